@@ -2239,7 +2239,7 @@ yang_print_parsed_body(struct lys_ypr_ctx *pctx, const struct lysp_module *modp)
 
     if (yprp_extension_has_printable_instances(modp->exts)) {
         YPR_EXTRA_LINE_PRINT(pctx);
-        yprp_extension_instances(pctx, LY_STMT_MODULE, 0, modp->exts, NULL);
+        yprp_extension_instances(pctx, modp->is_submod ? LY_STMT_SUBMODULE : LY_STMT_MODULE, 0, modp->exts, NULL);
     }
 
     YPR_EXTRA_LINE(modp->exts, pctx);
